@@ -216,7 +216,7 @@ var c01Phases = map[string][]string{
 		"checkpoint_snapshot_boundary_lock", "checkpoint_snapshot_boundary"},
 	"lsckpt": {"checkpoint_lock", "checkpoint_copy_before", "sync_page_map", "rename_ltx", "checkpoint_passive_barrier", "checkpoint_passive_barrier", "checkpoint_exec", "checkpoint_exec", "checkpoint_exec",
 		"checkpoint_bump_seq", "checkpoint_bump_seq", "checkpoint_bump_seq", "checkpoint_verify_restart", "checkpoint_snapshot_boundary_lock", "checkpoint_snapshot_boundary"},
-	"snapshot": {"snapshot_encode"},
+	"snapshot": {"snapshot_encode", "snapshot_position", "snapshot_position"},
 	"close":    {"verify", "sync_page_map", "rename_ltx", "sync_complete", "close_release", "checkpoint_exec", "checkpoint_bump_seq"},
 }
 
@@ -231,7 +231,14 @@ func genInterleave(t *rapid.T, m *lsw.GenModel, k string) []lsw.Op {
 	var xs []lsw.Op
 	n := rapid.IntRange(1, 3).Draw(t, "entries")
 	for i := 0; i < n; i++ {
-		xs = append(xs, lsw.Op{K: "at", M: rapid.SampledFrom(ph).Draw(t, "phase"), N: rapid.SampledFrom([]int{1, 1, 1, 2, 3}).Draw(t, "occ"), X: genNested(t, m)})
+		x := lsw.Op{K: "at", M: rapid.SampledFrom(ph).Draw(t, "phase"), N: rapid.SampledFrom([]int{1, 1, 1, 2, 3}).Draw(t, "occ"), X: genNested(t, m)}
+		if x.M == "snapshot_position" && rapid.IntRange(0, 3).Draw(t, "lsInHook") > 0 {
+			// between a snapshot's position and its reader nothing of litestream's is held but the checkpoint read lock:
+			// the harness may sync and ask for a checkpoint right there, then let the application commit again
+			x.X = append(x.X, lsw.Op{K: "ls", M: "sync"}, lsw.Op{K: "ls", M: "checkpoint", L: rapid.IntRange(0, 3).Draw(t, "ckptMode")})
+			x.X = append(x.X, genNested(t, m)...)
+		}
+		xs = append(xs, x)
 	}
 	return xs
 }
